@@ -82,12 +82,8 @@ def wild_extract(tr, raw):
                         d[int(m.group(1))] = ord(ast.literal_eval(v)) & 0xff
                     else: d[int(v.rstrip('ul')) if False else int(m.group(1))] = int(v) & 0xff
                 except (ValueError, SyntaxError): pass
-        out = []
-        for i in range(len(d)):
-            if i not in d or d[i] == 0: break
-            out.append(d[i])
-        return bytes(out)
-    return arr('p'), arr('s')
+        return bytes(d.get(i, 0) for i in range(max(d) + 1)) if d else b''
+    return arr('p'), arr('s')           # complete buffers, including whatever lies behind the terminator
 
 # ---------------------------------------------------------------------------------------------- RangeParser (E2)
 class Placeholders:
@@ -251,8 +247,9 @@ def check_c18(ck, tier, replay=None):
     parsed = {}
     rf = ranges(ck, mod, tier, parsed)
     for k, tr, r in wf:
-        p, s = wild_extract(tr, r)
-        meta = {'kind': 'wild', 'pattern': p.hex(), 'string': s.hex(), 'clause': k}
+        pf, sf = wild_extract(tr, r)
+        p = pf.split(b'\0')[0]; s = sf.split(b'\0')[0]
+        meta = {'kind': 'wild', 'pattern': p.hex(), 'string': s.hex(), 'pattern_buffer': pf.hex(), 'string_buffer': sf.hex(), 'clause': k}
         rep = common.write_replay('C18', 'wild' + k + p.hex() + s.hex(), {}, meta); ok, why = replay_wild(meta)
         ck.violation('C18 wildcmp ' + ('mismatch' if k == 'equal' else 'over-read'), 'wildcmp(%r, %r): %s' % (p, s, why), rep, reproduced=ok)
     for text, cls, mdl, nph in rf:
@@ -266,7 +263,14 @@ def replay_wild(meta):
     rc, so, se = common.run_native(binn, 'wild %s %s\n' % (p.hex() or '-', s.hex() or '-'))
     if rc != 0: return True, 'sanitizer/abort: ' + se.split('\n')[0][:160]
     got = so.strip() == '1'; exp = glob_ref(p, s)
-    return got != exp, 'real wildcmp returns %s, glob semantics give %s' % (got, exp)
+    if got != exp: return True, 'real wildcmp returns %s, glob semantics give %s' % (got, exp)
+    # same strings, but followed in memory by the bytes CBMC chose behind the terminators: a result that changes shows a read past the end
+    pf = bytes.fromhex(meta.get('pattern_buffer', '')); sf = bytes.fromhex(meta.get('string_buffer', ''))
+    if pf or sf:
+        rc, so2, se = common.run_native(binn, 'wildbuf %s %s\n' % (pf.hex() or '00', sf.hex() or '00'))
+        got2 = so2.strip() == '1'
+        if got2 != exp: return True, 'real wildcmp(%r, %r) returns %s when the buffers continue with %r / %r behind the terminators (glob semantics: %s): it reads past the end of its arguments' % (p, s, got2, pf[len(p) + 1:], sf[len(s) + 1:], exp)
+    return False, 'real wildcmp returns %s, glob semantics give %s' % (got, exp)
 
 def replay_range(meta):
     mdl = meta['model'] or {}; text = meta['text']
